@@ -9,8 +9,8 @@ import hashlib
 from harness import tlc, pool
 
 HERE = os.path.dirname(os.path.dirname(os.path.abspath(__file__)))
-EVIDENCE = os.path.join(HERE, 'evidence')
-REPLAYS = os.path.join(HERE, 'replays')
+EVIDENCE = os.environ.get('VERIF_EVIDENCE_DIR') or os.path.join(HERE, 'evidence')
+REPLAYS = os.environ.get('VERIF_REPLAYS_DIR') or os.path.join(HERE, 'replays')
 KNOWN = os.path.join(HERE, 'known_findings.json')
 
 ASSUMPTIONS = [
@@ -140,7 +140,7 @@ class Ctx:
                 if p != self.prop:
                     continue
                 fam['violating'] += 1
-                self.violation(p, hit[0], hit[1], sc, r, family, driver, known_match)
+                self.violation(p, hit[0], hit[1], sc, r, family, driver, known_match, component, trace_module)
         self.cov['distinct_nontrivial'] = len(self._distinct)
         if len(self.cov['samples']) < 3 and out:
             sc, r, v = out[0]
@@ -149,7 +149,7 @@ class Ctx:
                                         'verdict': {k: (None if x is None else list(x)) for k, x in v.items()}})
         return out
 
-    def violation(self, prop, clause, idx, sc, r, family, driver, known_match=None):
+    def violation(self, prop, clause, idx, sc, r, family, driver, known_match=None, component=None, trace_module=None):
         kf = None
         for k in self.known.get('known', []):
             if k['property'] != prop:
@@ -164,6 +164,7 @@ class Ctx:
             self.violations.append(None)
             return
         rep = {'property': prop, 'clause': clause, 'event_index': idx, 'family': family, 'driver': driver,
+               'component': component, 'trace_module': trace_module,
                'scenario': replayable(sc, r), 'source_fingerprint': source_fingerprint(),
                'trace': r['events']}
         h = hashlib.sha1(json.dumps(rep['scenario'], sort_keys=True).encode()).hexdigest()[:12]
@@ -210,3 +211,20 @@ def replayable(sc, r):
     dec = r.get('decisions') or []
     s['strategy'] = {'kind': 'replay', 'prefix': [d[1] for d in dec]}
     return s
+
+
+def generic_replay(mod, prop, path):
+    """Re-execute a recorded violation (scenario + exact schedule) on the current tree and
+    re-validate it with TLC; exit status 1 iff the violation reproduces."""
+    rep = json.load(open(path))
+    r = pool.run_one(rep['driver'], rep['scenario'])
+    comp = rep.get('component') or mod.COMP
+    tm = rep.get('trace_module') or mod.TRACE
+    verdicts, st = tlc.validate_batch(comp, tm, [r['events']])
+    hit = verdicts[0].get(prop)
+    same = r['events'] == rep.get('trace')
+    print('replay: status=%s verdict=%s trace_identical=%s' % (r.get('status'), hit, same))
+    if hit is not None:
+        print('VIOLATION property=%s replay=%s clause=%s' % (prop, path, hit[0]))
+        return 1
+    return 0
